@@ -424,6 +424,14 @@ def write_evidence(prop, tier_, t0, coverage, *, violations=0, assumptions=(), l
 
 def finish(prop, tier_, t0, coverage, violations, known_seen, *, assumptions=()):
     """Print verdict lines, write evidence, return exit code. violations: list of (description, replay_path)."""
+    # a check that steers the front end through per-case data directories must never find data in the process' own ~/.sse:
+    # that would mean a seam did not take and whatever was observed was observed in the wrong place
+    import binding
+    if "ssepy-home." in os.environ.get("HOME", ""):
+        leaked = binding.leaked_data()
+        if leaked:
+            raise MachineryError("the code under test wrote below the harness' own ~/.sse (%s ...): the data-directory seam is "
+                                 "ineffective, nothing observed in this run can be trusted" % leaked[0])
     for fid, (f, n) in sorted(known_seen.items()):
         print("KNOWN-FINDING: property=%s %s [%s, reproduced %d time(s)]" % (prop, f["what"], fid, n))
     coverage = dict(coverage)
